@@ -181,3 +181,31 @@ impl std::hash::Hash for CKey {
         (self.0 % 2).hash(state)
     }
 }
+
+/// Builds (part of) the system under test. A panic while building means that a legal
+/// configuration cannot even be constructed: reported under `rule`, class `construction_panic`.
+pub fn build_guarded<T>(rule: &'static str, what: &str, f: impl FnOnce() -> T) -> Option<T> {
+    match std::panic::catch_unwind(std::panic::AssertUnwindSafe(f)) {
+        Ok(t) => Some(t),
+        Err(p) => {
+            let msg = if let Some(s) = p.downcast_ref::<&str>() {
+                s.to_string()
+            } else if let Some(s) = p.downcast_ref::<String>() {
+                s.clone()
+            } else {
+                "non-string panic".to_string()
+            };
+            world::violation(rule, "construction_panic", format!("building {} panicked: {}", what, msg));
+            None
+        }
+    }
+}
+
+/// u32::MAX in a scenario stands for usize::MAX ("no limit" written as a count)
+pub fn count(n: u32) -> usize {
+    if n == u32::MAX {
+        usize::MAX
+    } else {
+        n as usize
+    }
+}
